@@ -925,6 +925,10 @@ def namedtuple_cases(ctx):
                     ctx.count('namedtuple:threads')
                     yield apply_case(ctx, 'api:apply_pool-namedtuple', iname, kw, 'series', items_form, 'threads', 2, 1, pi, n, {}, cpairs,
                                      ok, payload, sok, spayload, mfn='c18_apply_nt_M')
+                if n != 1:
+                    # ONE task only on process pools: with two unpicklable call items CPython 3.12.1 itself can deadlock at pool shutdown
+                    # (_SafeQueue._on_queue_feeder_error takes shutdown_lock while join_executor_internals holds it and joins the feeder)
+                    continue
                 for k, c in ((1, 1), (2, 1), (2, 2)):
                     install_free({})
                     ok, payload = run_apply_pool(container, 'iter_tuple', kw, 'series', items_form, 'procs', k, c, None, {}, [])
@@ -1354,14 +1358,38 @@ def config_cases(ctx):
 
 
 # ------------------------------------------------------------------------------------------ driver
+HANG_LIMIT = 900.0
+
+
+def _watchdog(beat, stop):
+    '''A pool that never returns (a deadlock inside concurrent.futures, a lost worker) must not hang the check for ever:
+    no case for HANG_LIMIT seconds is reported as a failure of the machinery (exit 2), never as a violation.'''
+    import sys
+    while not stop.wait(5.0):
+        if time.time() - beat[0] > HANG_LIMIT:
+            sys.stderr.write(f'MACHINERY-ERROR property=C18: no progress for {HANG_LIMIT:.0f}s while driving a real pool (last case: {beat[1]}) -- '
+                             'wall-clock failure of the machinery, not a violation\n')
+            sys.stderr.flush()
+            os._exit(2)
+
+
 def cases(ctx):
     for key in _STATS:
         _STATS[key] = 0
     unexplained = 0
-    for case in _cases(ctx):
-        if case.py_fail and 'finding' not in case.tags:
-            unexplained += 1
-        yield case
+    beat, stop = [time.time(), 'none yet'], threading.Event()
+    dog = threading.Thread(target=_watchdog, args=(beat, stop), daemon=True)
+    dog.start()
+    try:
+        for case in _cases(ctx):
+            if case.py_fail and 'finding' not in case.tags:
+                unexplained += 1
+            beat[0], beat[1] = time.time(), case.kind
+            yield case
+            beat[0] = time.time()
+    finally:
+        stop.set()
+        dog.join(10)
     ctx.count(f'schedules:enforced:{_STATS["enforced"]}')
     bad = _STATS['timeout'] + _STATS['mismatch']
     if bad:
